@@ -67,9 +67,9 @@ theorem ctLoop_le (tags : List Tag) (tm lf : Int) (hc : Bool) (rem : Nat) (tagno
     try split
     all_goals (try simp only [List.length_take, List.length_drop]; omega))
 
-theorem checkTags_le (tags : List Tag) (cs : Option Nat) (tm lf : Int) (bs : Bytes) :
-    (checkTags tags cs tm lf bs).consumed ≤ bs.length := by
-  unfold checkTags
+theorem checkTagsRaw_le (tags : List Tag) (cs : Option Nat) (tm lf : Int) (bs : Bytes) :
+    (checkTagsRaw tags cs tm lf bs).consumed ≤ bs.length := by
+  unfold checkTagsRaw
   simp only
   repeat' split
   all_goals (first | exact Nat.le_trans (ctRet_le ..) (Nat.zero_le _) | skip)
@@ -80,6 +80,14 @@ theorem checkTags_le (tags : List Tag) (cs : Option Nat) (tm lf : Int) (bs : Byt
        have hll := fetchLength_le _ _ _ _ ‹fetchLength _ _ = Fetch.ok _ _›
        simp only [List.length_drop] at hll ⊢; omega)
     | omega)
+
+theorem checkTags_le (tags : List Tag) (cs : Option Nat) (tm lf : Int) (bs : Bytes) :
+    (checkTags tags cs tm lf bs).consumed ≤ bs.length := by
+  unfold checkTags
+  simp only
+  split
+  · exact Nat.zero_le _
+  · exact checkTagsRaw_le tags cs tm lf bs
 
 /-! ### ber_skip_length: the skipped size is within the presented bytes -/
 
@@ -332,7 +340,7 @@ theorem ostrFetch_le (l : Int) (bs : Bytes) (t : TL) (n : Nat) (h : ostrFetch l 
       simp only [List.length_take, List.length_drop] at htl hll
       refine ⟨rfl, ?_, ?_, ?_⟩ <;> omega
 
-theorem ostrTlv_adv2 (allTags : List Tag) (s : OS) (t : TL) (h : 2 ≤ t.tl + t.ll) :
+theorem ostrTlv_adv2 (allTags : Nat → Tag → Tag) (s : OS) (t : TL) (h : 2 ≤ t.tl + t.ll) :
     outAdv (ostrTlv allTags s t) ≤ t.tl + t.ll := by
   unfold ostrTlv
   simp only
@@ -391,7 +399,7 @@ theorem dec_le : ∀ (td : TD) (tm : Int) (n : Node) (bs : Bytes), (dec td tm n 
   | .seq tags ms es fe t2e, tm, n, bs => by
     simp only [dec]; exact seqDec_le _ _ _ _ _ _ (fun i n p => decAt_le ms es i n p) _ _
   | .setOf tags e el, tm, n, bs => by
-    simp only [dec]; exact setOfDec_le _ _ _ _ (fun n p => dec_le e 0 n p) _ _
+    simp only [dec]; exact setOfDec_le _ _ _ _ (fun n p => dec_le e el.tagMode n p) _ _
   | .choice tags ms es ext t2e, tm, n, bs => by
     simp only [dec]; exact choiceDec_le _ _ _ _ _ _ (fun i n p => decAt_le ms es i n p) _ _
 theorem decAt_le : ∀ (ms : List TD) (es : List Elem) (i : Nat) (n : Node) (bs : Bytes),
@@ -473,9 +481,9 @@ theorem ctLoop_ext (tags : List Tag) (tm lf : Int) (hc : Bool) :
                       · exact ih _ _ _ _ _ _ _ _ _
 
 
-theorem checkTags_ext (tags : List Tag) (cs : Option Nat) (tm lf : Int) (bs ext : Bytes) :
-    CTExt (checkTags tags cs tm lf bs) (checkTags tags cs tm lf (bs ++ ext)) := by
-  unfold checkTags
+theorem checkTagsRaw_ext (tags : List Tag) (cs : Option Nat) (tm lf : Int) (bs ext : Bytes) :
+    CTExt (checkTagsRaw tags cs tm lf bs) (checkTagsRaw tags cs tm lf (bs ++ ext)) := by
+  unfold checkTagsRaw
   simp only
   split
   · have ht := (fetchTag_ext bs ext).1
@@ -502,35 +510,24 @@ theorem checkTags_ext (tags : List Tag) (cs : Option Nat) (tm lf : Int) (bs ext 
     · exact ctLoop_ext _ _ _ _ _ _ _ _ _ _ _ _ _ _
     · intro _; rfl
 
-/-- with a chain of at most one tag, RC_WMORE from `ber_check_tags` means nothing was consumed and the saved
-    step is unchanged: the restart repeats the call -/
-def MoreKeeps (hc : Bool) (cons step : Nat) (r : CT) : Prop :=
-  r.rc = .more → r.consumed = (if hc then cons else 0) ∧ r.step = step
-
-theorem ctLoop_more_single (tags : List Tag) (tm lf : Int) (hc : Bool) (rem : Nat) (hrem : rem ≤ 1)
-    (tagno : Int) (step : Nat) (limit : Int) (e00 : Nat) (tlvLen constr : Int) (cons : Nat) (bs : Bytes) :
-    MoreKeeps hc cons step (ctLoop tags tm lf hc rem tagno step limit e00 tlvLen constr cons bs) := by
-  match rem, hrem with
-  | 0, _ => unfold ctLoop; simp [MoreKeeps, ctRet]
-  | 1, _ =>
-    unfold ctLoop
-    simp only
-    repeat' split
-    all_goals (first | (simp [MoreKeeps, ctRet]; done) | (unfold ctLoop; simp [MoreKeeps, ctRet]))
-
-theorem checkTags_more_single (tags : List Tag) (cs : Option Nat) (tm lf : Int) (bs : Bytes)
-    (hs : tags.length + (if tm == 1 then 1 else 0) ≤ 1) :
-    MoreKeeps true 0 (cs.getD 0) (checkTags tags cs tm lf bs) := by
+theorem checkTags_ext (tags : List Tag) (cs : Option Nat) (tm lf : Int) (bs ext : Bytes) :
+    CTExt (checkTags tags cs tm lf bs) (checkTags tags cs tm lf (bs ++ ext)) := by
+  intro hne
+  have hraw : (checkTagsRaw tags cs tm lf bs).rc ≠ .more := by
+    intro h; apply hne; unfold checkTags; simp [h]
+  have := checkTagsRaw_ext tags cs tm lf bs ext hraw
   unfold checkTags
-  simp only
-  repeat' split
-  all_goals (first | (simp [MoreKeeps, ctRet]; done) | skip)
-  · unfold ctLoop; simp [MoreKeeps, ctRet]
-  · have := ctLoop_more_single tags tm lf cs.isSome ((tags.length : Int) - ctTagno (cs.getD 0) tm).toNat
-      (by unfold ctTagno; split at hs <;> simp_all <;> omega) (ctTagno (cs.getD 0) tm) (cs.getD 0) (-1) 0 0 (-1) 0 bs
-    intro h
-    have := this h
-    simpa using this
+  rw [this]
+
+/-- RC_WMORE from `ber_check_tags` means nothing was consumed and the saved step is unchanged, whatever the length
+    of the tag chain: the restart repeats the call on the same state -/
+theorem checkTags_more (tags : List Tag) (cs : Option Nat) (tm lf : Int) (bs : Bytes)
+    (h : (checkTags tags cs tm lf bs).rc = .more) :
+    (checkTags tags cs tm lf bs).consumed = 0 ∧ (checkTags tags cs tm lf bs).step = cs.getD 0 := by
+  unfold checkTags at h ⊢
+  by_cases hr : (checkTagsRaw tags cs tm lf bs).rc = .more
+  · simp [hr]
+  · simp [hr] at h
 
 /-! ### generic theory of `iterate`: per-iteration laws ⇒ the laws of a restartable decoder -/
 
@@ -1211,17 +1208,17 @@ theorem stepRel_fail {σ : Type} (it : σ → Bytes → Out σ) (s : σ) (p ext 
     (h1 : it s p = .ret s1 .fail n1) (h2 : it s (p ++ ext) = .ret s2 .fail n2) : StepRel it s p ext := by
   unfold StepRel; rw [h1]; exact ⟨s2, n2, h2⟩
 
-/-- phase 0 of the constructed decoders: `ber_check_tags` with a single-tag chain -/
-theorem checkTags_cases (tags : List Tag) (step : Nat) (tm lf : Int) (p ext : Bytes)
-    (hs : tags.length + (if tm == 1 then 1 else 0) ≤ 1) :
+/-- phase 0 of the context-carrying decoders: `ber_check_tags` either waits without touching anything or gives a
+    verdict that more input does not change -/
+theorem checkTags_cases (tags : List Tag) (step : Nat) (tm lf : Int) (p ext : Bytes) :
     (checkTags tags (some step) tm lf p).rc = .more ∧ (checkTags tags (some step) tm lf p).consumed = 0 ∧
       (checkTags tags (some step) tm lf p).step = step ∨
     (checkTags tags (some step) tm lf p).rc ≠ .more ∧
       checkTags tags (some step) tm lf (p ++ ext) = checkTags tags (some step) tm lf p := by
   by_cases h : (checkTags tags (some step) tm lf p).rc = .more
   · left
-    have := checkTags_more_single tags (some step) tm lf p hs h
-    exact ⟨h, by simpa using this.1, by simpa using this.2⟩
+    have := checkTags_more tags (some step) tm lf p h
+    exact ⟨h, this.1, by simpa using this.2⟩
   · right
     exact ⟨h, checkTags_ext tags (some step) tm lf p ext h⟩
 
@@ -1236,12 +1233,20 @@ theorem ctLoop_noctx (tags : List Tag) (tm lf : Int) (hc : Bool) (hhc : hc = fal
   fun_induction ctLoop tags tm lf false rem tagno step limit e00 tlvLen constr cons bs
   all_goals (first | assumption | simp [NoCtxZero, ctRet])
 
+theorem checkTagsRaw_noctx (tags : List Tag) (tm lf : Int) (bs : Bytes) :
+    NoCtxZero (checkTagsRaw tags none tm lf bs) := by
+  unfold checkTagsRaw
+  simp only
+  repeat' split
+  all_goals (first | exact ctLoop_noctx _ _ _ _ rfl _ _ _ _ _ _ _ _ _ | simp [NoCtxZero, ctRet])
+
 theorem checkTags_noctx (tags : List Tag) (tm lf : Int) (bs : Bytes) :
     NoCtxZero (checkTags tags none tm lf bs) := by
   unfold checkTags
   simp only
-  repeat' split
-  all_goals (first | exact ctLoop_noctx _ _ _ _ rfl _ _ _ _ _ _ _ _ _ | simp [NoCtxZero, ctRet])
+  split
+  · intro _; rfl
+  · exact checkTagsRaw_noctx tags tm lf bs
 
 theorem primTail_ext (k : PKind) (st : Option PVal) (cons : Nat) (len : Int) (rest ext : Bytes)
     (h : (primTail k st cons len rest).2.1 ≠ .more) :
